@@ -17,20 +17,25 @@ pub struct HttpServer {
 impl HttpServer {
     /// the server threads live until the process exits (the server has no shutdown path)
     pub fn start(dbs: Arc<Databases>) -> HttpServer {
-        let port = free_port();
-        let addr = Arc::new(format!("127.0.0.1:{}", port));
-        std::thread::Builder::new()
-            .name(format!("http-{}", port))
-            .spawn(move || nundb::network::http_ops::start_http_client(dbs, addr))
-            .unwrap();
-        // wait until it accepts
-        for _ in 0..2000 {
-            if TcpStream::connect(("127.0.0.1", port)).is_ok() {
-                return HttpServer { port };
+        // the port is free when it is picked; if somebody else takes it before the server binds
+        // (the server thread then ends at once), pick another one
+        for _attempt in 0..8 {
+            let port = free_port();
+            let addr = Arc::new(format!("127.0.0.1:{}", port));
+            let d = dbs.clone();
+            let h = std::thread::Builder::new().name(format!("http-{}", port)).spawn(move || nundb::network::http_ops::start_http_client(d, addr)).unwrap();
+            for _ in 0..2000 {
+                if h.is_finished() {
+                    break;
+                }
+                if TcpStream::connect(("127.0.0.1", port)).is_ok() && !h.is_finished() {
+                    return HttpServer { port };
+                }
+                std::thread::sleep(std::time::Duration::from_millis(2));
             }
-            std::thread::sleep(std::time::Duration::from_millis(2));
         }
-        panic!("http server did not start on port {}", port);
+        eprintln!("machinery: the http server could not be started on any port");
+        std::process::exit(2);
     }
 
     /// any bytes as a whole request (malformed heads, odd methods, bodies that are not UTF-8);
